@@ -118,7 +118,7 @@ class QueriesLeg(object):
                                "within": w, "strand": None, "featuretype": None, "fstrand": "+"})
                     qs.append({"kind": "limit", "form": "tuple", "method": "all_features", "start": max(1, a["start"] - 2), "end": a["end"] + 2,
                                "seqid": a["seqid"], "within": w, "strand": None, "featuretype": None})
-            return {"features": feats, "queries": qs, "added": added,
+            return {"features": feats, "queries": qs, "added": added, "move": draw(st.booleans()),
                     "shift": draw(st.sampled_from([0, 0, 0, 1 << 17, (1 << 20) + 5, 131070]))}
 
         return case()
@@ -244,6 +244,22 @@ class QueriesLeg(object):
                           for f in new_feats]
                 db.update([feature_from_line(l) for l in lines2], make_backup=False)
                 feats = feats + new_feats
+                if case.get("move") and len(feats) >= 2:
+                    # add_relation() re-writes the feature its child_func returns: f1 moves to a new place
+                    far = max(f["end"] for f in feats)
+                    ns, ne = far + (1 << 17) + 7, far + (1 << 17) + 40
+
+                    def mover(parent, child):
+                        child.start, child.end = ns, ne
+                        return child
+
+                    db.add_relation("f0", "f1", 9, child_func=mover)
+                    # (the new relation also makes f1 a child of f0)
+                    feats = [dict(f, start=ns, end=ne, parent=True) if f["id"] == "f1" else f for f in feats]
+                    case = dict(case, features=[dict(f, start=ns - sh, end=ne - sh, parent=True) if f["id"] == "f1" else f for f in case["features"]])
+                    q0 = {"kind": "region", "form": "tuple", "start": ns - 1, "end": ne + 1, "seqid": feats[1]["seqid"], "within": True,
+                          "strand": None, "featuretype": None, "fstrand": "+"}
+                    queries = queries + [q0, dict(q0, kind="limit", method="all_features"), dict(q0, kind="limit", method="all_features", within=False)]
                 case = dict(case, features=case["features"] + [dict(f, start=f["start"] - sh, end=f["end"] - sh) for f in new_feats])
                 child = next((f for f in feats if f["parent"]), None)
         return None
